@@ -2,7 +2,7 @@
 # Builds the Coq development (full .vo), extracts the model and compiles the OCaml driver.
 # Output: /verif/.cache/model/driver
 set -e
-V=/verif
+V=$(cd "$(dirname "$0")/.." && pwd)
 mkdir -p $V/.cache/model
 python3 $V/tools/gen_consts.py
 cd $V/coq
